@@ -21,7 +21,7 @@ INIT = 'git::repo_storage::InitialAttributions'
 CFG = {'max_steps': 2000000}
 
 BOUNDS = {
-    'quick': 'one file whose working tree is K + n lines: a prefix of K pre-existing lines with K symbolic in [0, 500] followed by n <= 3 lines (n <= 2 when a deletion is present), each line pre-existing (P), added by this commit (C) or an unstaged insertion (U); optionally one committed line deleted from the working tree at a chosen gap (D); per line an author in {none, human, s1, s2}; line attributions = run-length encoding of the authors (maximal runs or one per line); plus a second untouched file; HashMap iteration order arbitrary',
+    'quick': 'one file whose working tree is K + n lines: a prefix of K pre-existing lines with K symbolic in [0, 500] followed by n <= 3 lines (n <= 2 when a deletion is present), each line pre-existing (P), added by this commit (C) or an unstaged insertion (U); optionally one committed line deleted from the working tree at a chosen gap (D); per line an author in {none, human, s1, s2}; line attributions = run-length encoding of the authors (maximal runs or one per line, ascending or descending order); plus a second untouched file; HashMap iteration order arbitrary',
     'thorough': 'n <= 4 lines (n <= 3 with a deletion)',
 }
 OUTSIDE = 'unstaged *modifications* of committed lines (replace hunks whose ground truth is a judgement call), untracked-file fallback (file system), the prompt-record bookkeeping, sequences of more than one commit (the single step is decided for an arbitrary pending state; "once" follows because INITIAL of step k is the pending input of step k+1)'
@@ -147,12 +147,16 @@ def run_split(h, shape):
                 j += 1
         lattrs.append(mk_struct(M, LATTR, start_line=wt_no[i], end_line=wt_no[j], author_id=pystring(authors[i]), overrode=none()))
         i = j + 1
+    # the pending set is a HashMap value built by several producers: its order is not necessarily ascending
+    reversed_order = len(lattrs) > 1 and h.choice(2) == 1
+    if reversed_order:
+        lattrs = lattrs[::-1]
     # a second file with pending AI lines that this commit does not touch at all
     other = [mk_struct(M, LATTR, start_line=Sc(1, 32), end_line=Sc(2, 32), author_id=pystring('s1'), overrode=none())]
     attributions = MapV('hash', [[pystring('f.txt'), tup(VecV([]), VecV(lattrs))], [pystring('other.txt'), tup(VecV([]), VecV(other))]], 'map')
     va = mk_struct(M, VAS, repo=Opaque('Repository', None), base_commit=pystring('c0mmit'), attributions=attributions,
                    file_contents=MapV('hash', [], 'map'), prompts=MapV('btree', [], 'map'), ts=Sc(1, 128), blame_start_commit=none())
-    h.inputs_struct = {'K': K, 'status': status, 'deleted': dele, 'authors': authors, 'merged_runs': merged}
+    h.inputs_struct = {'K': K, 'status': status, 'deleted': dele, 'authors': authors, 'merged_runs': merged, 'reversed': reversed_order}
     repo = Opaque('Repository', None)
     try:
         r = P.call_named(VAS + '::to_authorship_log_and_initial_working_log',
@@ -316,6 +320,8 @@ def replay(v, native):
                     j += 1
             lattrs.append([K + i + 1, K + j + 1, authors[i]])
             i = j + 1
+        if inp.get('reversed'):
+            lattrs = lattrs[::-1]
         r = native('c04_split', {'repo': tmp, 'parent': psha, 'commit': csha,
                                  'files': {'f.txt': lattrs, 'other.txt': [[1, 2, 's1']]}})
         if 'panic' in r:
